@@ -9,6 +9,7 @@ import (
 	"fmt"
 	"io"
 	"math"
+	"slices"
 	"sync"
 	"testing"
 	"testing/iotest"
@@ -384,6 +385,87 @@ var readAllProp = vp.Register(vp.Prop[ReadAllCase]{
 })
 
 func TestReadAll(t *testing.T) { vp.Run(t, readAllProp) }
+
+// checkOptional: whatever other reading interfaces the limited reader offers
+// (io.ByteReader for decoders such as gzip, xml, gob; io.WriterTo for io.Copy)
+// are routes to the same stream and are bound by the same statement: what they
+// deliver is a prefix of r's stream of at most n bytes, then a *LimitError.
+// The unchanged reader offers none; the kind then only records that.
+func checkOptional(c ReadCase) error {
+	steps := slices.Clone(c.Steps)
+	for i := range steps {
+		if steps[i].Err == 3 {
+			steps[i].Err = 0 // (contract-keeping readers only on these routes)
+		}
+	}
+	mk := func() (io.Reader, *scripted) {
+		under := &scripted{n: c.Len, steps: steps}
+		return ioutil.LimitReader(under, c.Limit), under
+	}
+	want := func(n int) []byte {
+		b := make([]byte, n)
+		for i := range b {
+			b[i] = streamByte(i)
+		}
+		return b
+	}
+	offered := false
+	if r, under := mk(); true {
+		if br, ok := r.(io.ByteReader); ok {
+			offered = true
+			vp.Class("optional:io.ByteReader")
+			var got []byte
+			errs := 0
+			for calls := 0; calls < 4*c.Len+4*len(steps)+16 && errs < 3; calls++ {
+				b, err := br.ReadByte()
+				if err == nil {
+					got = append(got, b)
+					continue
+				}
+				errs++
+				var le *ioutil.LimitError
+				if uint64(len(got)) >= c.Limit && (!errors.As(err, &le) || le.Limit != c.Limit) {
+					return fmt.Errorf("ReadByte after %d of limit %d bytes: error %v, want a *LimitError{%d}", len(got), c.Limit, err, c.Limit)
+				}
+			}
+			if uint64(len(got)) > c.Limit || len(got) > under.pos || !bytes.Equal(got, want(len(got))) {
+				return fmt.Errorf("ReadByte delivered %d bytes %v with limit %d from a stream of which %d bytes were read: not a prefix of the stream within the limit (stream starts %v)", len(got), got, c.Limit, under.pos, want(min(c.Len, 16)))
+			}
+		}
+	}
+	if r, under := mk(); true {
+		if wt, ok := r.(io.WriterTo); ok {
+			offered = true
+			vp.Class("optional:io.WriterTo")
+			var buf bytes.Buffer
+			n, _ := wt.WriteTo(&buf)
+			got := buf.Bytes()
+			if n != int64(len(got)) || uint64(len(got)) > c.Limit || len(got) > under.pos || !bytes.Equal(got, want(len(got))) {
+				return fmt.Errorf("WriteTo wrote %d bytes (reported %d) with limit %d: not a prefix of the stream within the limit", len(got), n, c.Limit)
+			}
+			for _, a := range under.asked {
+				if uint64(a) > c.Limit {
+					return fmt.Errorf("WriteTo asked the underlying reader for %d bytes with limit %d", a, c.Limit)
+				}
+			}
+		}
+	}
+	if !offered {
+		vp.Class("optional:none-offered")
+		return nil
+	}
+	vp.NonTrivialStr("c15.optional", fmt.Sprintf("%+v", c))
+	vp.Sample("optional", c)
+	return nil
+}
+
+var optionalProp = vp.Register(vp.Prop[ReadCase]{
+	Kind: "c15.optional", Base: 4000,
+	Gen:   func(t *rapid.T) ReadCase { return readProp.Gen(t) },
+	Check: checkOptional,
+})
+
+func TestOptional(t *testing.T) { vp.Run(t, optionalProp) }
 
 // WriteCase is a limit, write sizes and a writer script.
 type WriteCase struct {
